@@ -361,7 +361,31 @@ def guard_info(facts, b):
                 if 'move' in a and a['move']['l'] == l and not a['move']['p']:
                     moved = True
         out.append((l, create, path_ok, disarm, moved))
+        GUARD_DROP_PROBLEM[l] = drop_problem(facts, db)
     return out
+
+
+GUARD_DROP_PROBLEM = {}
+
+
+def drop_problem(facts, db):
+    """the guard's Drop removes the file on EVERY path on which the guard is still armed: a path through drop() that does not
+    call remove_file must be decided by the guard's own fields alone (its disarm flag), never by anything else - the state of
+    the thread (panicking()), the environment, the file system"""
+    ps = [p for p in Walker(db, facts, max_paths=256).run(0) if p.end[0] == 'return']
+    if not ps:
+        return 'cannot enumerate the paths of the guard\'s drop()'
+    for p in ps:
+        if any(e[0] == 'call' and e[2] and e[2]['name'] == 'remove_file' for e in p.events):
+            continue
+        own = [c for c, v in p.conds if not term_has(c, lambda x: isinstance(x, tuple) and x and x[0] in ('call', 'icall'))
+               and term_has(c, lambda x: x == ('param', 1))]
+        foreign = [c for c, v in p.conds if term_has(c, lambda x: isinstance(x, tuple) and x and x[0] in ('call', 'icall'))]
+        if foreign:
+            return 'drop() skips the removal depending on %s, not only on the guard\'s own disarm flag: a failing exit taken in that situation keeps the old output' % fmt_term(foreign[0])[:70]
+        if not own:
+            return 'drop() has a path that does not remove the file and is not decided by the guard\'s disarm flag'
+    return None
 
 
 def r184_for(facts, res, R, b, label):
@@ -385,6 +409,8 @@ def r184_for(facts, res, R, b, label):
             problems.append('guard does not own the builder\'s output path')
         if moved:
             problems.append('guard value is moved into a call (its Drop may not run here)')
+        if GUARD_DROP_PROBLEM.get(l):
+            problems.append(GUARD_DROP_PROBLEM[l])
         if create is not None:
             early = [x for x in F if x in b.reachable(b.succs(cb), avoid={create})]
             for x in early:
